@@ -25,7 +25,8 @@ theorem isDirect_mape (eps : Rat) (sym : Bool) : IsDirect (fun a b h m => meanAb
     (fun hw t p => npAverage hw ((pctCol eps sym t p).map absR)) 1 true := by
   intro yt yp hw mo out; rw [mape_iff]; simp
 theorem isDirect_mdape (eps : Rat) (sym : Bool) :
-    IsDirect (fun a b h m => medianAbsolutePercentageError eps a b h m sym) (fun hw => mdapeCol eps hw sym) 1 false := by
+    IsDirect (fun a b h m => medianAbsolutePercentageError eps a b h m sym)
+    (fun hw t p => medianW hw ((pctCol eps sym t p).map absR)) 1 false := by
   intro yt yp hw mo out; rw [mdape_iff]; simp
 theorem isDirect_mspe (eps : Rat) (sqrt sym : Bool) :
     IsDirect (fun a b h m => meanSquaredPercentageError eps a b h m sqrt sym)
